@@ -27,6 +27,10 @@ pub trait Hooks: Send + Sync {
     fn knob(&self, _name: &'static str, default: u64) -> u64 {
         default
     }
+    /// A read that may legally return fewer bytes than asked ("buggify"): how many to serve, 1..=n.
+    fn short_read(&self, n: usize) -> usize {
+        n
+    }
     /// An output I/O operation is about to happen.
     fn io(&self, _op: &io::IoOp) -> io::IoDecision {
         io::IoDecision::Proceed
@@ -54,6 +58,19 @@ pub fn knob(name: &'static str, default: usize) -> usize {
     match hooks() {
         None => default,
         Some(h) => h.knob(name, default as u64) as usize,
+    }
+}
+
+/// Cooperative fault point for `Read::read` implementations inside jubako: the simulator may
+/// shorten a read (never to zero), which the `Read` contract allows at any time.
+#[inline]
+pub fn short_read(n: usize) -> usize {
+    if n <= 1 {
+        return n;
+    }
+    match hooks() {
+        None => n,
+        Some(h) => h.short_read(n).clamp(1, n),
     }
 }
 
